@@ -389,7 +389,8 @@ def random_ops(rng, n):
 
 def short_histories(n, ntails=2):
     """Exhaustive-short: after a fixed successful login, every sequence of 2 ops from a focused alphabet, then
-    run / lost / run -- covers every pair (long op or DELE or QUIT) x (any command) under pipelining and not."""
+    run / lost / run -- covers every pair (long op or DELE or QUIT) x (any command) under pipelining and not;
+    plus every 2-deep queue (head from 7, any second command) behind a RETR in progress."""
     first = [("line", c) for c in [("STAT", -1, -1), ("LIST", -1, -1), ("RETR", 1, -1), ("TOP", 1, 1), ("DELE", 1, -1),
                                    ("QUIT", -1, -1), ("APOP", 3, 1), ("RSET", -1, -1)]] + [("run",), ("lost",)]
     second = [("line", c) for c in all_cmds(n, tops=(1,))] + [("run",), ("lost",), ("fire", 1, True), ("fire", 1, False)]
@@ -399,6 +400,12 @@ def short_histories(n, ntails=2):
         for b in second:
             for tl in tails[:ntails]:
                 out.append([("connect",), ("line", ("USER", 1, -1)), ("line", ("PASS", 1, -1)), ("line", ("DELE", n, -1)), a, b] + tl)
+    # two commands pipelined behind a transfer in progress: every (queue head from 7) x (any command)
+    heads = [("STAT", -1, -1), ("RETR", 1, -1), ("TOP", n, 1), ("DELE", 1, -1), ("QUIT", -1, -1), ("XYZZY", -1, -1), ("USER", 3, -1)]
+    for a in heads:
+        for b in all_cmds(n, tops=(1,)):
+            out.append([("connect",), ("line", ("USER", 1, -1)), ("line", ("PASS", 1, -1)), ("line", ("RETR", n, -1)),
+                        ("line", a), ("line", b), ("run",), ("run",), ("fire", 1, True), ("run",), ("lost",)])
     return out
 
 
@@ -436,7 +443,7 @@ def run(ctx):
         for ops in short_histories(n, ctx.pick(1, 2)):
             traces.append(run_history(n, ops))
     nshort = len(traces)
-    for _ in range(ctx.pick(1000, 30000)):
+    for _ in range(ctx.pick(1000, 20000)):
         n = ctx.rng.choice([0, 1, 2, 2, 3, 3])
         traces.append(run_history(n, random_ops(ctx.rng, n)))
     ctx.note_traces(traces)
